@@ -1,9 +1,198 @@
+import ScenicModel.Model.Sampler
+import ScenicModel.Gen.SamplerCfg
 import Driver.Util
-/-! line protocol for the C01 model (stub: replaced when the property's model is built) -/
+/-! line protocol for the sampler model (C01); the configuration is the one regenerated from /repo.
+
+`gen <n> <program>`      exact PMF of `generate` with `maxIterations = n`, as `key#num/den` entries sorted by key;
+                         keys are `<active bits>|<iterations>|<scene>` and `<active bits>|rej`
+`order <program>`        the DFS post-order in which `sampleAll` draws
+`paths <program>`        number of weighted outcomes of one `sampleAll`
+
+Program syntax (prefix tokens, written by tools/props/c01.py `Term.line`):
+  <#nodes> node* OUT <k> (label id)* REQ <k> (prob rexpr)* DEF <k> rexpr*
+  node  = C val | R lo hi | S n | D len | W k w* | M idx k id* | U sel k arg* | O name k arg*     arg = s<id> | p<id>
+  val   = n<num>/<den> | bT | bF | s<hex> | t<k> val* | l<k> val* | N
+  rexpr = r<id> | c val | o name k rexpr*
+-/
 namespace Driver.C01
-open Driver
+open Driver Scenic.Sampler
+
+def cfg : Cfg := Scenic.Gen.samplerCfg
+
+abbrev Parser (α : Type) := List String → Option (α × List String)
+
+def pNat : Parser Nat
+  | t :: rest => t.toNat?.map (·, rest)
+  | [] => none
+
+def pTok : Parser String
+  | t :: rest => some (t, rest)
+  | [] => none
+
+def pMany {α : Type} (p : Parser α) : Nat → Parser (List α)
+  | 0, ts => some ([], ts)
+  | k + 1, ts => do
+    let (a, ts) ← p ts
+    let (as, ts) ← pMany p k ts
+    pure (a :: as, ts)
+
+def hexToString (h : String) : Option String :=
+  if h == "-" then some "" else
+  (fromHex h).bind fun bs => String.fromUTF8? (ByteArray.mk (bs.map (·.toUInt8)).toArray)
+
+partial def pVal : Parser Val
+  | [] => none
+  | t :: rest =>
+    let body := (t.drop 1).toString
+    match t.front with
+    | 'n' => (parseRat body).map fun q => (Val.num q, rest)
+    | 'b' => some (Val.bool (body == "T"), rest)
+    | 's' => (hexToString body).map fun s => (Val.str s, rest)
+    | 't' => do
+      let k ← body.toNat?
+      let (vs, rest) ← pMany pVal k rest
+      pure (Val.tup vs, rest)
+    | 'l' => do
+      let k ← body.toNat?
+      let (vs, rest) ← pMany pVal k rest
+      pure (Val.lst vs, rest)
+    | 'N' => some (Val.none, rest)
+    | _ => none
+
+def pArg : Parser (Bool × Nat)
+  | t :: rest => ((t.drop 1).toString.toNat?).map fun i => ((t.front == 's', i), rest)
+  | [] => none
+
+def pRat : Parser Rat
+  | t :: rest => (parseRat t).map (·, rest)
+  | [] => none
+
+def pNode : Parser Node
+  | [] => none
+  | t :: rest =>
+    match t with
+    | "C" => (pVal rest).map fun (v, r) => (Node.const v, r)
+    | "R" => do
+      let (lo, r) ← pNat rest
+      let (hi, r) ← pNat r
+      pure (Node.drange lo hi, r)
+    | "S" => (pNat rest).map fun (n, r) => (Node.selector n, r)
+    | "D" => (pNat rest).map fun (n, r) => (Node.dynSelector n, r)
+    | "W" => do
+      let (k, r) ← pNat rest
+      let (ws, r) ← pMany pRat k r
+      pure (Node.windex ws, r)
+    | "M" => do
+      let (idx, r) ← pNat rest
+      let (k, r) ← pNat r
+      let (os, r) ← pMany pNat k r
+      pure (Node.mux idx os, r)
+    | "U" => do
+      let (sel, r) ← pNat rest
+      let (k, r) ← pNat r
+      let (os, r) ← pMany pArg k r
+      pure (Node.ustar sel os, r)
+    | "O" => do
+      let (f, r) ← pTok rest
+      let (k, r) ← pNat r
+      let (as, r) ← pMany pArg k r
+      pure (Node.op f as, r)
+    | _ => none
+
+partial def pRExpr : Parser RExpr
+  | [] => none
+  | t :: rest =>
+    if t == "c" then (pVal rest).map fun (v, r) => (RExpr.const v, r)
+    else if t == "o" then do
+      let (f, r) ← pTok rest
+      let (k, r) ← pNat r
+      let (as, r) ← pMany pRExpr k r
+      pure (RExpr.op f as, r)
+    else if t.front == 'r' then ((t.drop 1).toString.toNat?).map fun i => (RExpr.ref i, rest)
+    else none
+
+structure Program where
+  prog : Prog
+  outs : List (String × Nat)
+  reqs : List (Rat × RExpr)
+  defaults : List RExpr
+
+def expect (s : String) : Parser Unit
+  | t :: rest => if t == s then some ((), rest) else none
+  | [] => none
+
+def pProgram : Parser Program := fun ts => do
+  let (n, ts) ← pNat ts
+  let (nodes, ts) ← pMany pNode n ts
+  let (_, ts) ← expect "OUT" ts
+  let (k, ts) ← pNat ts
+  let (outs, ts) ← pMany (fun ts => do
+    let (l, ts) ← pTok ts
+    let (i, ts) ← pNat ts
+    pure ((l, i), ts)) k ts
+  let (_, ts) ← expect "REQ" ts
+  let (k, ts) ← pNat ts
+  let (reqs, ts) ← pMany (fun ts => do
+    let (p, ts) ← pRat ts
+    let (e, ts) ← pRExpr ts
+    pure ((p, e), ts)) k ts
+  let (_, ts) ← expect "DEF" ts
+  let (k, ts) ← pNat ts
+  let (defs, ts) ← pMany pRExpr k ts
+  pure ({ prog := ⟨nodes⟩, outs := outs, reqs := reqs, defaults := defs }, ts)
+
+mutual
+partial def refs : RExpr → List Nat
+  | .ref i => [i]
+  | .const _ => []
+  | .op _ as => refsList as
+partial def refsList : List RExpr → List Nat
+  | [] => []
+  | e :: es => refs e ++ refsList es
+end
+
+/-- `Scenario.dependencies`: objects and parameters, then what the requirements refer to -/
+def Program.roots (p : Program) : List Nat :=
+  p.outs.map (·.2) ++ refsList (p.reqs.map (·.2)) ++ refsList p.defaults
+
+def sceneOf (outs : List (String × Nat)) (env : Env) : String :=
+  ";".intercalate (outs.map fun (l, i) => l ++ "=" ++ (env.get i).canon)
+
+def bits (bs : List Bool) : String := String.ofList (bs.map fun b => if b then '1' else '0')
+
+/-- merge equal keys, drop zero weights, sort by key -/
+def normalise (d : List (String × Rat)) : List (String × Rat) :=
+  let sorted := d.mergeSort (fun a b => a.1 ≤ b.1)
+  let merged := sorted.foldr (fun x acc =>
+    match acc with
+    | y :: ys => if x.1 == y.1 then (x.1, x.2 + y.2) :: ys else x :: acc
+    | [] => [x]) []
+  merged.filter fun x => x.2 != 0
+
+def render (d : List (String × Rat)) : String :=
+  " ".intercalate ((normalise d).map fun (k, w) => k ++ "#" ++ showRat w)
+
+def runGen (n : Nat) (p : Program) : String :=
+  let d := generate cfg p.prog p.roots (p.reqs.map fun (q, e) => (q, e.holds)) (p.defaults.map (·.holds))
+    (sceneOf p.outs) n
+  render (List.map (fun (x : (List Bool × Option (String × Nat)) × Rat) =>
+    match x.1.2 with
+    | some (s, k) => (bits x.1.1 ++ "|" ++ toString k ++ "|" ++ s, x.2)
+    | none => (bits x.1.1 ++ "|rej", x.2)) d)
 
 def handle : List String → String
+  | "gen" :: n :: rest =>
+    match n.toNat?, pProgram rest with
+    | some n, some (p, []) => runGen n p
+    | _, _ => "bad-program"
+  | "order" :: rest =>
+    match pProgram rest with
+    | some (p, []) => " ".intercalate ((postorder p.prog p.roots).map toString)
+    | _ => "bad-program"
+  | "paths" :: rest =>
+    match pProgram rest with
+    | some (p, []) => toString (sampleAll cfg p.prog p.roots).length
+    | _ => "bad-program"
   | _ => "bad-op"
 
 end Driver.C01
